@@ -4,7 +4,9 @@ import (
 	"crypto/sha256"
 	"encoding/binary"
 	"fmt"
+	"os"
 	"sort"
+	"strconv"
 )
 
 // Violation is a failed oracle. Signature is a short canonical string that
@@ -29,7 +31,14 @@ type EventLog struct {
 	lines []string
 }
 
-func NewEventLog() *EventLog { return &EventLog{Keep: 60} }
+func NewEventLog() *EventLog {
+	l := &EventLog{Keep: 60}
+	// DST_KEEP: longer tail for looking at a replay (affects what is kept, not what runs)
+	if k, err := strconv.Atoi(os.Getenv("DST_KEEP")); err == nil && k > 0 {
+		l.Keep = k
+	}
+	return l
+}
 
 func (l *EventLog) Add(format string, a ...interface{}) {
 	s := fmt.Sprintf(format, a...)
